@@ -8,10 +8,11 @@ V="$(cd "$(dirname "$0")/.." && pwd)"
 export GOFLAGS=-mod=mod GOPROXY=off GOSUMDB=off GOTOOLCHAIN=local
 mkdir -p "$W"
 cp "$REPO/go.mod" "$W/go.mod"; cp "$REPO/go.sum" "$W/go.sum"
+python3 "$V/tools/instrument.py" "$REPO" "$W" > "$W/instr.json"
 python3 - "$REPO" "$V" "$W" <<'PY'
 import json,os,sys,glob
 repo,v,w=sys.argv[1:4]
-rep={}
+rep=json.load(open(w+'/instr.json'))
 for f in glob.glob(v+'/harness/*.go'):
     rep[repo+'/internal/verifharness/'+os.path.basename(f)]=f
 for f in glob.glob(v+'/harness/exports/*.go'):
